@@ -15,6 +15,7 @@ DECIDED = ("R1 only the sync / crash code mutates durable state (persisted_files
 NOT_DECIDED = ("that the durable image equals the crate's model for every history (path equality under rename chains, order of flushed "
                "ops, orphan reachability); SetPermissions durability (outside the property).")
 DECIDED += "; R8 exhaustive scans: apply_torn_writes, sync_dir, sync_file, sync_file_data consider every pending record"
+DECIDED += "; R9 inverse records of one name are selected alike by sync_dir (own CreateDir <=> own RemoveDir); R10 data syncs follow the file through a pending rename (recorded finding D15); R3's Rename clause: the durable entry moves as a whole"
 ASSUMPTIONS = ["IndexMap / IndexSet / Vec API semantics"]
 
 FS = "turmoil_fs::Fs::"
